@@ -17,6 +17,7 @@ import HmfVerif.Spec.Mdef
 import HmfVerif.Spec.Transfer
 import HmfVerif.Gen.ExprHalofit
 import HmfVerif.Model.QuadIO
+import HmfVerif.Model.TableIO
 /-! Driver: one request per line on stdin, one canonical answer per line on stdout. -/
 
 def exprTables : List (String × List (String × Hmf.E)) :=
@@ -39,6 +40,7 @@ def dispatch (line : String) : String :=
   else if line.startsWith "COMBOS " || line.startsWith "ORDER " then Hmf.Fn.IO.handle line
   else if line.startsWith "EVALV " then Hmf.ExprIO.handle lookupTerm line
   else if line.startsWith "QUAD " then Hmf.Quad.IO.handle lookupTerm line
+  else if line.startsWith "TABLE " then Hmf.Table.IO.handle line
   else "bad-request"
 
 partial def loop (h : IO.FS.Stream) (out : IO.FS.Stream) : IO Unit := do
